@@ -75,6 +75,12 @@ Theorem C04_on_discards_iff_slow : forall slow, decide true slow = if slow then 
 Proof. exact decide_on. Qed.
 Print Assumptions C04_on_discards_iff_slow.
 
+(* ... and the option reaches the engine as written in the config: absent means enabled (the
+   CLI default), a written value -- literal or placeholder resolving to it -- is kept. *)
+Theorem C04_configured_discard : configured_discard None = true /\ forall b, configured_discard (Some b) = b.
+Proof. split; reflexivity. Qed.
+Print Assumptions C04_configured_discard.
+
 (* The window is 2 s, the discarded sample is (net 777, tag "discarded"): the model's constants
    are the values compiled from the source. *)
 Theorem C04_window_value :
